@@ -4,7 +4,9 @@ import (
 	"context"
 	"encoding/json"
 	"fmt"
+	"os"
 	"strings"
+	"time"
 
 	"github.com/herohde/morlock/pkg/board"
 	"github.com/herohde/morlock/pkg/search"
@@ -124,6 +126,15 @@ func runC03(ctx context.Context, cs c03case, budget int64) (cls, msg string, ski
 }
 
 func depthsFor(c *harness.Check, r searchRoot, cfg string) []int {
+	if strings.Contains(r.Tags, "rich") {
+		if cfg == "full/captures-quiescence" || cfg == "turochamp" {
+			return nil // the unpruned reference quiescence is out of reach there (C11 has these roots with quiescence)
+		}
+		if cfg == "full/material" {
+			return []int{1, 2, c.Pick(2, 3)}[:c.Pick(2, 3)]
+		}
+		return []int{1, 2}
+	}
 	net := strings.Contains(r.Tags, "net")
 	max := c.Pick(3, 4)
 	if net {
@@ -146,9 +157,9 @@ func depthsFor(c *harness.Check, r searchRoot, cfg string) []int {
 
 func checkC03(c *harness.Check) {
 	mustAnchors(c)
-	c.Rule = "search corpus (mate/stalemate nets, small endgames, tactical fragments, roots whose history makes a repetition / the fifty-move rule / insufficient material occur inside the tree) x depth 0..D x 7 configurations (full+static, full+captures-only quiescence, TUROCHAMP quiescence, SARGON one-ply-if-checked without under-promotions, BERNSTEIN plausible moves at limits 7/3/1); each case: full-window AlphaBeta.Search vs unpruned reference negamax/quiescence under the reference score order, PV legal + within depth + first move attains the value + non-empty when it must be, board snapshot unchanged. distinct_nontrivial = distinct (root, config, depth, value) with depth >= 1"
+	c.Rule = "search corpus (mate/stalemate nets, small endgames, tactical fragments, roots whose history makes a repetition / the fifty-move rule / insufficient material occur inside the tree - with equal and with unequal material -, five capture-rich middlegames at depth <= 2-3) x depth 0..D x 7 configurations (full+static, full+captures-only quiescence, TUROCHAMP quiescence, SARGON one-ply-if-checked without under-promotions, BERNSTEIN plausible moves at limits 7/3/1); each case: full-window AlphaBeta.Search vs unpruned reference negamax/quiescence under the reference score order, PV legal + within depth + first move attains the value + non-empty when it must be, board snapshot unchanged. distinct_nontrivial = distinct (root, config, depth, value) with depth >= 1"
 	var cases []c03case
-	for _, r := range searchRoots {
+	for _, r := range append(append([]searchRoot(nil), searchRoots...), richRoots...) {
 		for _, cfg := range searchCfgs {
 			for _, d := range depthsFor(c, r, cfg.Name) {
 				cases = append(cases, c03case{r, cfg.Name, d})
@@ -163,7 +174,15 @@ func checkC03(c *harness.Check) {
 			return
 		}
 		cs := cases[len(cases)-1-i] // deepest first
-		cls, msg, skipped := runC03(ctx, cs, budget)
+		bud := budget
+		if strings.Contains(cs.Root.Tags, "rich") {
+			bud = int64(c.Pick(200_000, 3_000_000))
+		}
+		st := time.Now()
+		cls, msg, skipped := runC03(ctx, cs, bud)
+		if d := time.Since(st); d > 20*time.Second && os.Getenv("VERIF_SLOW") != "" {
+			fmt.Fprintf(os.Stderr, "slow case %v: %v\n", d, cs)
+		}
 		c.Evaluations.Add(1)
 		c.Traces.Add(1)
 		if skipped {
